@@ -39,7 +39,23 @@ class LoopMixin:
             key = "for:" + ast.unparse(node.iter)
         else:
             key = "while:" + ast.unparse(node.test)
-        sp = self.unit.loops.get(key)
+        # '<key>#k': the k-th loop with that head text in the unit's target function (source order)
+        sp = None
+        if any(k.startswith(key + "#") for k in self.unit.loops):
+            root = getattr(self, "root_func", None)
+            same = []
+            if root is not None:
+                for nd in ast.walk(root.node):
+                    if type(nd) is type(node) and (
+                            ("for:" + ast.unparse(nd.iter)) if isinstance(nd, ast.For)
+                            else ("while:" + ast.unparse(nd.test))) == key:
+                        same.append(nd)
+                same.sort(key=lambda x: (x.lineno, x.col_offset))
+                for k, nd in enumerate(same):
+                    if nd is node or (nd.lineno, nd.col_offset) == (node.lineno, node.col_offset):
+                        sp = self.unit.loops.get(f"{key}#{k + 1}")
+        if sp is None:
+            sp = self.unit.loops.get(key)
         if sp is None:
             fq = frame.func.qual if frame.func is not None else ""
             sp = self.unit.loops.get(fq + "/" + key)
@@ -88,6 +104,20 @@ class LoopMixin:
     # ---------------------------------------------------------------- for
     def exec_for(self, s, frame):
         it = self.eval(s.iter, frame)
+        if it.k == "val" and (it.hint or "").startswith("obj:"):
+            # iterating an instance of a class under /repo: its __iter__ decides
+            m = self.find_method(it.hint[4:], "__iter__")
+            if m is not None:
+                mi, cnode, fnode = m
+                pf = PyFunc(fnode, None, mi, cnode.name + ".__iter__", bound_self=it, cls=cnode.name)
+                it = self.call(py(pf, "func"), [], {}, s.iter, frame)
+        if it.k == "val" and it.hint is None and self.tag(it) is None and not self.in_spec:
+            # a value of unknown type is iterated: it has to be a list (anything else that textX
+            # iterates carries a type hint); a non-iterable raises TypeError (implicit exception)
+            v = it.r
+            self.require(z3.And(Val.is_ref(v), cls_of(Val.a(v)) == CLASSES.addr("list")), "TypeError",
+                         f"iterating {ast.unparse(s.iter)}")
+            it = TV("val", v, "list")
         items = self.iter_items(it)
         if items is not None:
             return self.unrolled_for(s, frame, items)
@@ -312,15 +342,27 @@ class LoopMixin:
         ln2, get = self.seq_access(it)  # re-read after havoc (frame facts relate them)
         i = fresh(idx.strip("_") or "i", core.IntS)
         self.assume(i >= 0)
-        if getattr(sp, "body_unit", None):
-            # the body is verified as a region unit of its own (which carries the
-            # INV-PRES step as requires/ensures); here only the exit is explored
+        body_unit = getattr(sp, "body_unit", None)
+        if body_unit and not getattr(sp, "step", False):
+            # the body is verified as a region unit of its own; here only the exit is
+            # explored (no invariant depends on the step: Loop(step=False))
             d = 1
             self.assume(i == ln2)
         else:
             d = self.choose(2, [i < ln2, i == ln2], f"loop:{label}")
         env = self.loop_env(frame, {idx: TV("int", i)})
         self.assume_clauses(sp.inv, env, extra=extra)
+        if d == 0 and body_unit:
+            # INV-PRES through the CONTRACT of the body's region unit: its requires are CALL
+            # obligations here (so they are established, not assumed), its ensures are the
+            # only facts about one iteration
+            from .contracts import REGISTRY
+
+            self.assign(s.target, get(i), frame)
+            self.apply_region(REGISTRY[body_unit], frame, s.body, label)
+            env2 = self.loop_env(frame, {idx: TV("int", i + 1)})
+            self.check_clauses(sp.inv, env2, "INV-PRES", label, extra=extra)
+            raise PathEnd("loop body done")
         if d == 0:
             self.assign(s.target, get(i), frame)
             self.iter_trace_mark = len(self.trace)
@@ -339,6 +381,114 @@ class LoopMixin:
                 raise PathEnd("loop body done")
             return  # break: skip else
         self.exec_block(s.orelse, frame)
+
+    def apply_region(self, bu, frame, body, label):
+        """One execution of a statement region, replaced by the contract of its region unit."""
+        env = self.loop_env(frame)
+        line = getattr(body[0], "lineno", 0) if body else 0
+        for pname, pt in bu.params.items():
+            if pname not in env:
+                # Python itself raises UnboundLocalError when the region reads the variable
+                raise self.implicit("UnboundLocalError", f"{pname} (parameter of region unit {bu.name}) at {label}")
+            tv = env[pname]
+            if tv.k == "val" and tv.hint is None and pt != "any":
+                env[pname] = TV("val", tv.r, pt if "|" not in pt else None)
+        for i, cl in enumerate(bu.requires):
+            lab, text, prop = named(cl)
+            t, side = self.spec(text, env, old_heap=self.heap)
+            self.assume_all(side)
+            self.oblige("CALL", f"{bu.name}.pre.{lab or i}@{line}", t, text, prop)
+        old = self.heap
+        N0 = self.next_addr
+        prot = []
+        for m in bu.protects:
+            prot.extend(self.eval_locs(m, env=env))
+        if self.unit is not None and self.unit is not bu:
+            # locations the calling unit assumes no code it calls touches (listed as an assumption)
+            for m in self.unit.ext_protect:
+                try:
+                    prot.extend(self.eval_locs(m))
+                except Unsupported as e:
+                    if "unresolved name" not in str(e):
+                        raise
+        if bu.modifies is not None and "*" not in bu.modifies:
+            mods = []
+            for m in bu.modifies:
+                mods.extend(self.eval_locs(m, env=env))
+
+            def cond(field, idx, _mods=mods, _N0=N0):
+                cs = [c for c in (self.loc_match(p, field, idx) for p in _mods) if c is not None]
+                if field in core.NESTED and len(idx) == 1:
+                    for p in _mods:
+                        if p[0] == "attr" and field in ("fld", "has"):
+                            return None
+                untouched = z3.Not(z3.Or(*cs)) if cs else z3.BoolVal(True)
+                return z3.simplify(z3.And(idx[0] < _N0, untouched))
+        else:
+            # the region may modify anything (also what this activation allocated) but `protects`
+            def cond(field, idx, _prot=prot):
+                cs = [c for c in (self.loc_match(p, field, idx) for p in _prot) if c is not None]
+                return z3.simplify(z3.Or(*cs)) if cs else None
+        self.heap = self.heap.havoc(cond, tag=core.fresh_name("R"), preserves=bu.preserves)
+        self.invalidate_shapes(cond)
+        self.next_addr = fresh("N", core.IntS)
+        self.assume(self.next_addr >= N0)
+        env2 = dict(env)
+        newvals = {}
+        for name in sorted(assigned_names(body)):
+            cur = frame.lookup(name)
+            if cur is not None and cur.k == "py" and not isinstance(cur.r, (list, tuple)):
+                continue
+            hint = (bu.locals or {}).get(name) or bu.params.get(name)
+            if hint in (None, "any"):
+                hint = cur.hint if cur is not None and cur.k != "py" else None
+            v = fresh("rv_" + name, Val)
+            tv = TV("val", v, hint if hint and "|" not in hint else None)
+            self.closed(v)
+            self.apply_hint_facts(tv)
+            newvals[name] = tv
+        for k, v in env.items():
+            env2["final_" + k] = newvals.get(k, v)
+        for k, v in newvals.items():
+            env2.setdefault("final_" + k, v)
+
+        def visible(clauses):
+            out = []
+            for cl in clauses:
+                text = named(cl)[1]
+                if any(w in text for w in ("ev(", "evn(", "n_calls(", "created_here(", "evpos(")):
+                    continue  # speaks about the region's own trace of calls
+                out.append(cl)
+            return out
+
+        keys = list(bu.raises.keys())
+        d = self.choose(1 + len(keys), [None] * (1 + len(keys)), f"region:{bu.name}@{line}") if keys else 0
+        if d == 0:
+            self.assume_clauses(visible(bu.ensures), env2, old_heap=old)
+            self.trace.append({"name": "region:" + bu.name, "args": dict(env), "result": NONE,
+                               "heap_before": old, "heap_after": self.heap, "line": line})
+            for k, v in newvals.items():
+                self.bind(k, v, frame)
+            return
+        k = keys[d - 1]
+        e = fresh("e_" + bu.name.replace(".", "_"), core.IntS)
+        self.assume(z3.And(e >= 0, e < self.next_addr))
+        c = cls_of(e)
+        self.note_class_term(c)
+        hint = "obj"
+        if k != "*":
+            if k not in CLASSES.by_name:
+                CLASSES.declare(k, ("Exception",))
+            self.assume(subclass(c, CLASSES.addr(k)))
+            hint = "obj:" + k
+        else:
+            self.assume(subclass(c, CLASSES.addr("BaseException")))
+        etv = TV("val", mk_ref(e), hint)
+        env2["exc"] = etv
+        self.assume_clauses(visible(bu.raises[k]), env2, old_heap=old)
+        self.trace.append({"name": "region:" + bu.name, "args": dict(env), "exc": etv.r,
+                           "heap_before": old, "heap_after": self.heap, "line": line})
+        raise PyRaise(etv, known_cls=None, origin=f"region:{bu.name}")
 
     # -------------------------------------------------------------- while
     def exec_while(self, s, frame):
@@ -395,7 +545,11 @@ class LoopMixin:
                     from .spec import SpecEval
 
                     v1 = SpecEval(self, env2, self.entry_heap, self.heap, extra).int_expr(sp.variant)
-                    self.oblige("VAR", label, z3.And(v1 < var0, var0 >= 0), "variant " + sp.variant, None)
+                    # the variant has to decrease (and be bounded below) whenever ANOTHER iteration
+                    # follows, i.e. when the loop test holds again in the state after the body
+                    again = self.truthy(self.eval(s.test, frame))
+                    self.oblige("VAR", label, z3.Implies(again, z3.And(v1 < var0, var0 >= 0)),
+                                "another iteration => variant " + sp.variant + " decreased and was >= 0", None)
                 raise PathEnd("loop body done")
             return
         self.exec_block(s.orelse, frame)
@@ -642,6 +796,47 @@ class LoopMixin:
                 z3.Select(hasrow, kq) == z3.And(srchas, cond),
                 z3.Implies(z3.Select(hasrow, kq), z3.Select(valrow, kq) == val))))
             return TV("val", mk_ref(R), "dict")
+        if kind == "list" and is_items:
+            # [e(k, v) for k, v in D.items() if c(k, v)]: a fresh list with one element per selected
+            # key.  Skolem functions keyf : positions -> keys (injective) and posf : keys -> positions.
+            D0 = self.as_addr(it.r[2])
+            D = fresh("dcomp_D", core.IntS)  # a name for the dict's address: usable in patterns
+            self.assume(D == D0)
+            R = self.alloc("list")
+            row = fresh("dcomp_row", z3.ArraySort(core.IntS, Val))
+            rlen = fresh("dcomp_len", core.IntS)
+            self.heap = self.heap.store("llen", (R,), rlen, bump=False)
+            self.heap = self.heap.with_array("lelem", z3.Store(self.heap.cur["lelem"], R, row), bump=False)
+            keyf = z3.Function(core.fresh_name("dcomp_key"), core.IntS, Val)
+            posf = z3.Function(core.fresh_name("dcomp_pos"), Val, core.IntS)
+            hasrow = fresh("dcomp_has", z3.ArraySort(Val, core.BoolS))
+            valrow = fresh("dcomp_val", z3.ArraySort(Val, Val))
+            self.assume(hasrow == z3.Select(self.heap.cur["dhas"], D))
+            self.assume(valrow == z3.Select(self.heap.cur["dval"], D))
+            q = fresh("dq", core.IntS)
+            kq = fresh("dk", Val)
+
+            def at_key(kterm):
+                pair = py([TV("val", kterm, self.key_hints.get(str(it.r[2].r))),
+                           TV("val", z3.Select(valrow, kterm), self.elem_hint(it.r[2]))], "ctuple")
+                (outs, side) = self._pure_on(frame, g.target, pair, [n.elt] + list(g.ifs))
+                cond = z3.And(*[self.truthy(c) for c in outs[1:]]) if len(outs) > 1 else z3.BoolVal(True)
+                return self.to_val(outs[0]), cond, side
+
+            e1, c1, s1 = at_key(keyf(q))
+            self.assume(rlen >= 0)
+            self.assume(z3.ForAll([q], z3.Implies(z3.And(0 <= q, q < rlen), z3.And(
+                *s1, z3.Select(hasrow, keyf(q)), c1, z3.Select(row, q) == e1, posf(keyf(q)) == q)),
+                patterns=[keyf(q), z3.Select(row, q)]))
+            e2, c2, s2 = at_key(kq)
+            body2 = z3.Implies(z3.And(z3.Select(hasrow, kq), *s2, c2), z3.And(
+                0 <= posf(kq), posf(kq) < rlen, keyf(posf(kq)) == kq, z3.Select(row, posf(kq)) == e2))
+            try:
+                self.assume(z3.ForAll([kq], body2, patterns=[posf(kq), z3.Select(hasrow, kq),
+                                                             z3.Select(valrow, kq)]))
+            except z3.Z3Exception:
+                self.assume(z3.ForAll([kq], body2, patterns=[posf(kq)]))
+            return TV("val", mk_ref(R), "list")
         if it.k == "val" and it.hint == "list" and kind in ("list", "set", "gen") and not g.ifs:
             L = self.as_addr(it)
             ln = self.hread("llen", (L,))
